@@ -26,11 +26,11 @@ def _yields(flow) -> list[Node]:
     return out
 
 
-def filter_kinds(ctx: Ctx, fi: FuncInfo, expr: ast.AST, node: Node, depth: int = 0) -> set[str]:
+def filter_kinds(ctx: Ctx, fi: FuncInfo, expr: ast.AST, node: Node, depth: int = 0, comp_bind_extra: dict | None = None) -> set[str]:
     """Which filters does this condition consult: include / exclude / size / gitignore / toolignore / symlink / isfile."""
     prog = ctx.prog
     kinds: set[str] = set()
-    comp_bind: dict[str, ast.AST] = {}
+    comp_bind: dict[str, ast.AST] = dict(comp_bind_extra or {})
     for g in walk_no_nested(expr):
         if isinstance(g, ast.comprehension) and isinstance(g.target, ast.Name):
             comp_bind[g.target.id] = g.iter
@@ -91,21 +91,92 @@ def _polarity_matched(test: ast.AST, label: str) -> bool:
     return (label == "T") != neg
 
 
-def _site_filters(ctx: Ctx, fi: FuncInfo, head: Node, site: Node) -> dict[str, bool]:
-    """filter kind -> 'the filter matched' on the way from the loop head to the site (per-iteration must-edges)."""
-    flow = ctx.prog.flow(fi)
+def _helper_call(ctx: Ctx, fi: FuncInfo, expr: ast.AST) -> tuple[FuncInfo, bool] | None:
+    """(helper method, negated) if expr is `self._helper(...)` or `not self._helper(...)` of the resolver class."""
+    neg = False
+    e = expr
+    if isinstance(e, ast.UnaryOp) and isinstance(e.op, ast.Not):
+        neg, e = True, e.operand
+    if isinstance(e, ast.Call):
+        t = ctx.prog.resolve_call(fi, e)
+        if isinstance(t, list) and t[0].cls is not None and t[0].cls.qual == RESOLVER and not any(
+                isinstance(x, ast.Attribute) and x.attr == "files_max_size" for x in walk_no_nested(t[0].node)):
+            return t[0], neg
+    return None
+
+
+def _conjuncts(test: ast.AST, label: str) -> list[tuple[ast.AST, bool]]:
+    """(sub-condition, truth value it is known to have) when `test` evaluates to `label`."""
+    truth = label == "T"
+    if isinstance(test, ast.BoolOp) and isinstance(test.op, ast.And) and truth:
+        return [(v, True) for v in test.values]
+    if isinstance(test, ast.BoolOp) and isinstance(test.op, ast.Or) and not truth:
+        return [(v, False) for v in test.values]
+    return [(test, truth)]
+
+
+def _filters_from_edges(ctx: Ctx, fi: FuncInfo, edges, depth: int = 0) -> dict[str, bool]:
     out: dict[str, bool] = {}
-    for b, lab in sorted(must_edges(flow.cfg, head, site) or set(), key=lambda x: x[0].id):
+    for b, lab in sorted(edges, key=lambda x: x[0].id):
         if b.kind != "test":
             continue
-        # a conjunction taken on its T edge asserts every conjunct
-        conj = [b.ast]
-        if isinstance(b.ast, ast.BoolOp) and isinstance(b.ast.op, ast.And) and lab == "T":
-            conj = list(b.ast.values)
-        for part in conj:
+        for part, truth in _conjuncts(b.ast, lab):
+            h = _helper_call(ctx, fi, part) if depth < 3 else None
+            if h is not None:
+                callee, neg = h
+                want = truth != neg  # required truth value of the helper's result
+                out.update(_helper_filters(ctx, callee, want, depth + 1))
+                continue
+            neg = isinstance(part, ast.UnaryOp) and isinstance(part.op, ast.Not)
             for k in filter_kinds(ctx, fi, part, b):
-                out[k] = _polarity_matched(part, lab)
+                out[k] = truth != neg
     return out
+
+
+def _helper_filters(ctx: Ctx, callee: FuncInfo, want: bool, depth: int) -> dict[str, bool]:
+    """Filters (kind -> matched) known on every path of `callee` that returns the constant `want`."""
+    flow = ctx.prog.flow(callee)
+    rets = [r for r in flow.cfg.returns() if isinstance(r.ast.value, ast.Constant) and r.ast.value.value is want]
+    other = [r for r in flow.cfg.returns() if not (isinstance(r.ast.value, ast.Constant) and isinstance(r.ast.value.value, bool))]
+    if not rets or other:
+        # `return a and not b`-style helpers: classify by what is consulted, polarity taken from the expression
+        out: dict[str, bool] = {}
+        for r in flow.cfg.returns():
+            if r.ast.value is not None:
+                for part, truth in _conjuncts(r.ast.value, "T" if want else "F"):
+                    neg = isinstance(part, ast.UnaryOp) and isinstance(part.op, ast.Not)
+                    for k in filter_kinds(ctx, callee, part, r):
+                        out[k] = truth != neg
+        return out
+    result: dict[str, bool] | None = None
+    doms = flow.cfg.dominators()
+    for r in rets:
+        f = _filters_from_edges(ctx, callee, must_edges(flow.cfg, flow.cfg.entry, r) or set(), depth)
+        # rejecting loops that every path to this return runs through: `for x in xs: if match(x): return <not want>`
+        for h in doms.get(r, set()):
+            if h.kind != "for":
+                continue
+            for t in flow.loop_body_nodes(h):
+                if t.kind != "test":
+                    continue
+                for s, lab in t.succ:
+                    if s.kind == "stmt" and isinstance(s.ast, ast.Return) and isinstance(s.ast.value, ast.Constant) and s.ast.value.value is (not want):
+                        for part, truth in _conjuncts(t.ast, lab):
+                            neg = isinstance(part, ast.UnaryOp) and isinstance(part.op, ast.Not)
+                            comp = {}
+                            if isinstance(h.ast.target, ast.Name):
+                                comp[h.ast.target.id] = h.ast.iter
+                            for k in filter_kinds(ctx, callee, part, t, comp_bind_extra=comp):
+                                f[k] = not (truth != neg)  # on the accepting path the rejecting condition was false
+        result = f if result is None else {k: v for k, v in result.items() if f.get(k) == v}
+    return result or {}
+
+
+def _site_filters(ctx: Ctx, fi: FuncInfo, head: Node, site: Node) -> dict[str, bool]:
+    """filter kind -> 'the filter matched' on the way from the loop head to the site (per-iteration must-edges),
+    looking through predicate helpers of the resolver."""
+    flow = ctx.prog.flow(fi)
+    return _filters_from_edges(ctx, fi, must_edges(flow.cfg, head, site) or set())
 
 
 def check_resolve(ctx: Ctx) -> None:
@@ -162,24 +233,28 @@ def check_resolve(ctx: Ctx) -> None:
                    f"({'must match' if matched else 'must not match'}); filters on the path to the yield: {f}", where(glob, y))
     # explicit files: size always, exclusions only under force_exclude
     eflow = prog.flow(expl)
-    for r in eflow.cfg.returns():
-        v = r.ast.value
-        if isinstance(v, ast.Constant) and v.value is True:
-            f = {}
-            for b, lab in must_edges(eflow.cfg, eflow.cfg.entry, r) or set():
-                if b.kind == "test":
-                    for k in filter_kinds(ctx, expl, b.ast, b):
-                        f[k] = _polarity_matched(b.ast, lab)
-            ctx.ob("R-RESOLVE-V1", f"{expl.qual} :: explicit file passed the size filter", f.get("size") is False,
-                   f"explicitly named files bypass exclusions but not the size limit; filters before `return True`: {f}", where(expl, r))
+    f = _helper_filters(ctx, expl, True, 0)
+    ctx.ob("R-RESOLVE-V1", f"{expl.qual} :: explicit file passed the size filter", f.get("size") is False,
+           f"explicitly named files bypass exclusions but not the size limit; filters known when the file is accepted: {f}", where(expl, expl.node))
     n_ex = 0
     for n in eflow.cfg.nodes:
-        if n.kind == "test" and "exclude" in filter_kinds(ctx, expl, n.ast, n):
-            n_ex += 1
-            gs = [(b, lab) for b, lab in all_guards(prog, expl, n) if b.kind == "test"]
-            ok = any(lab == "T" and "force_exclude" in norm(b.ast) for b, lab in gs)
-            ctx.ob("R-RESOLVE-V1", f"{expl.qual} :: exclusion of explicit files only under force_exclude", ok,
-                   "exclusion patterns may filter an explicitly named file only when force_exclude is set", where(expl, n))
+        for ex in eflow.node_exprs(n):
+            parts = list(ex.values) if isinstance(ex, ast.BoolOp) and isinstance(ex.op, ast.And) else [ex]
+            if n.kind == "stmt" and isinstance(n.ast, (ast.Return, ast.Assign, ast.Expr)) and getattr(n.ast, "value", None) is not None:
+                v = n.ast.value
+                parts = list(v.values) if isinstance(v, ast.BoolOp) and isinstance(v.op, ast.And) else [v]
+            for i, part in enumerate(parts):
+                kinds = filter_kinds(ctx, expl, part, n)
+                h = _helper_call(ctx, expl, part)
+                if h is not None:
+                    kinds = kinds | set(_helper_filters(ctx, h[0], True, 1)) | set(_helper_filters(ctx, h[0], False, 1))
+                if "exclude" not in kinds:
+                    continue
+                n_ex += 1
+                gs = [(b, lab) for b, lab in all_guards(prog, expl, n) if b.kind == "test"]
+                ok = any(lab == "T" and "force_exclude" in norm(b.ast) for b, lab in gs) or any("force_exclude" in norm(p) for p in parts[:i])
+                ctx.ob("R-RESOLVE-V1", f"{expl.qual} :: exclusion of explicit files only under force_exclude", ok,
+                       "exclusion patterns may filter an explicitly named file only when force_exclude is set", where(expl, n))
     ctx.require("R-RESOLVE-V1", "exclude tests for explicit files", n_ex, 1)
 
     # ---- V3 pruning is in place
@@ -234,21 +309,42 @@ def check_resolve(ctx: Ctx) -> None:
                         seen_ok = True
         ctx.ob("R-RESOLVE-V4", f"{res.qual} :: {norm(c)} guarded by the seen-set on the resolved path", seen_ok,
                "a path is appended only if its resolved form is not yet in the seen set (duplicate-free result)", where(res, n))
-    # ---- V5 size limit: 0 disables
+    # ---- V5 size limit: 0 disables, strict comparison (identified by what the operands derive from, not by their text)
     sflow = prog.flow(size)
+
+    def from_limit(e: ast.AST, n: Node) -> bool:
+        return any(_mentions_attr(o, "files_max_size") for o in origins(prog, size, e, n))
+
     zero = False
+    cmp_ok = False
     for n in sflow.cfg.nodes:
-        if n.kind == "test" and isinstance(n.ast, ast.Compare) and isinstance(n.ast.ops[0], ast.Eq) and \
-                isinstance(n.ast.comparators[0], ast.Constant) and n.ast.comparators[0].value == 0 and "files_max_size" in norm(n.ast.left):
-            for s, lab in n.succ:
-                if lab == "T" and s.kind == "stmt" and isinstance(s.ast, ast.Return) and isinstance(s.ast.value, ast.Constant) \
-                        and s.ast.value.value is False:
-                    zero = True
+        for ex in sflow.node_exprs(n):
+            for c in walk_no_nested(ex):
+                if not (isinstance(c, ast.Compare) and len(c.ops) == 1):
+                    continue
+                l, r = c.left, c.comparators[0]
+                if isinstance(c.ops[0], ast.Eq) and isinstance(r, ast.Constant) and r.value == 0 and from_limit(l, n) and n.kind == "test":
+                    for s2, lab in n.succ:
+                        if lab == "T" and s2.kind == "stmt" and isinstance(s2.ast, ast.Return) and isinstance(s2.ast.value, ast.Constant) \
+                                and s2.ast.value.value is False:
+                            zero = True
+                if isinstance(c.ops[0], ast.Gt) and from_limit(r, n):
+                    sl = prog.slice(size, l, n)
+                    if any(op == ".st_size" for op, _ in sl.ops) or "st_size" in norm(l) or any("st_size" in a for a in sl.attrs()):
+                        cmp_ok = True
+                if isinstance(c.ops[0], ast.Lt) and from_limit(l, n) and "st_size" in norm(r):
+                    cmp_ok = True
     ctx.ob("R-RESOLVE-V5", f"{size.qual} :: 0 means no limit", zero, "files_max_size == 0 must short-circuit to 'not too large'", where(size, size.node))
-    cmp_ok = any(isinstance(n, ast.Compare) and isinstance(n.ops[0], ast.Gt) and "st_size" in norm(n.left) and "files_max_size" in norm(n.comparators[0])
-                 for n in walk_no_nested(size.node))
     ctx.ob("R-RESOLVE-V5", f"{size.qual} :: larger-than comparison", cmp_ok,
            "a file is skipped only if its size is strictly greater than the limit (st_size > files_max_size)", where(size, size.node))
+
+
+def _mentions_attr(o, name: str) -> bool:
+    if isinstance(o, tuple):
+        if o[0] == "attr" and o[2] == name:
+            return True
+        return any(_mentions_attr(x, name) for x in o)
+    return False
 
 
 def _effective_receiver(c: ast.Call) -> ast.AST:
